@@ -692,7 +692,7 @@ func runC18(e *Env) error {
 		}
 		c18SharedRound(e, seq, round%2 == 1, expect)
 	}
-	// (6) … : sizes, places, operators (c18_sized.go)
+	// (6), (7) … : records kept by value (c18_records.go); sizes, places, operators (c18_sized.go)
 	for _, part := range c18Extra {
 		if r.Full() {
 			break
